@@ -28,7 +28,7 @@ let string_of_tok (t : tok) : string =
 
 let aval_of_string (s : string) : aval =
   let rest = Stdlib.String.sub s 1 (Stdlib.String.length s - 1) in
-  match s.[0] with
+  match (Stdlib.String.get s 0) with
   | 'n' -> AN (n_of_int (int_of_string rest))
   | 's' -> AS (cps_or_dash rest)
   | 't' -> AT (tok_of_string rest)
@@ -46,11 +46,11 @@ let parse_node (s : string) (pos : int ref) : node =
   let len = Stdlib.String.length s in
   let rec word () =
     let st = !pos in
-    while !pos < len && s.[!pos] <> ' ' && s.[!pos] <> ')' && s.[!pos] <> '(' do incr pos done;
+    while !pos < len && (Stdlib.String.get s !pos) <> ' ' && (Stdlib.String.get s !pos) <> ')' && (Stdlib.String.get s !pos) <> '(' do incr pos done;
     Stdlib.String.sub s st (!pos - st)
-  and skip () = while !pos < len && s.[!pos] = ' ' do incr pos done
+  and skip () = while !pos < len && (Stdlib.String.get s !pos) = ' ' do incr pos done
   and node () =
-    if s.[!pos] <> '(' then failwith "expected (";
+    if (Stdlib.String.get s !pos) <> '(' then failwith "expected (";
     incr pos;
     let kind = int_of_string (word ()) in skip ();
     let ident = word () in skip ();
@@ -59,9 +59,9 @@ let parse_node (s : string) (pos : int ref) : node =
     let sc = int_of_string (word ()) in skip ();
     let el = int_of_string (word ()) in skip ();
     let ec = int_of_string (word ()) in skip ();
-    if s.[!pos] <> '{' then failwith "expected {";
+    if (Stdlib.String.get s !pos) <> '{' then failwith "expected {";
     let st = !pos + 1 in
-    while s.[!pos] <> '}' do incr pos done;
+    while (Stdlib.String.get s !pos) <> '}' do incr pos done;
     let astr = Stdlib.String.sub s st (!pos - st) in
     incr pos;
     let attrs = if astr = "" then [] else
@@ -72,8 +72,8 @@ let parse_node (s : string) (pos : int ref) : node =
         (Stdlib.String.split_on_char ';' astr) in
     let children = ref [] in
     skip ();
-    while s.[!pos] = '(' do children := node () :: !children; skip () done;
-    if s.[!pos] <> ')' then failwith "expected )";
+    while (Stdlib.String.get s !pos) = '(' do children := node () :: !children; skip () done;
+    if (Stdlib.String.get s !pos) <> ')' then failwith "expected )";
     incr pos;
     Node (ak_of_int kind, cps_or_dash ident, n_of_int raw, mk_range sl sc el ec, attrs, Stdlib.List.rev !children)
   in node ()
